@@ -13,10 +13,13 @@ CONFIG = {
              "the axis flag and the cut array of every round (first round only for vertex lists that are not simple polygons: the "
              "child leaves inside the wrapper). kinds: cuts = first round (subject = the generated polygon), cutsn = later rounds "
              "(subjects are pieces Clipper returned), fracidx = the expression (uint64_t)(j * (count / (num_cuts + 1.0))) for "
-             "counts up to 2^53. I = `x|y <cuts as hex doubles>` / nocall / crash / hang, M = the extracted fracture_cuts on the "
+             "counts up to 2^53, cutsall = corpus / replay only (all rounds on the real slice; a fracture that does not return is a "
+             "failing oracle line c12-fracture-hang). I = `x|y <cuts as hex doubles>` / nocall / crash / hang, M = the extracted fracture_cuts on the "
              "same subject and limit, compared as text. Generators: star, comb, saw, stairs, spiral, convex polygons on the 1e-3 "
              "grid with collinear / repeated vertices and off-grid shifts (all rounds); few-interior (0, <= num_cuts, num_cuts + 1, "
-             "num_cuts + 2 interior coordinates); large (300..5000 vertices, limits 5..200, coordinate pools with many repeats, "
+             "num_cuts + 2 interior coordinates); frac-exact (interior counts for which j * count / (num_cuts + 1) is an integer for some j, "
+             "half of them (count, num_cuts) pairs found by search on which the double computation of the index differs from the "
+             "exact quotient); large (300..5000 vertices, limits 5..200, coordinate pools with many repeats, "
              "full-mantissa, subnormal and signed-zero coordinates); degenerate axis (one point - the crashing input -, horizontal, "
              "vertical, 3x3 lattice); axis-tie (equal extents, extents one ulp apart, extents whose difference vanishes in the "
              "rounding of the subtraction); midpoint (two values 1..4 ulps apart, opposite signs, subnormals). P: cut list "
